@@ -22,7 +22,7 @@ func init() {
 		Rule: "a case is one seeded (tree-building history incl. removals, 2-32 reader tasks x 1-8 queries of all six kinds, scheduling strategy, " +
 			"interleaving) tuple; the scheduler decides which task runs at every yield (engine 'natural': yields at every Point()/filter callback of the " +
 			"unmodified package; engine 'ast': a yield before every statement of quadtree and planar in an instrumented copy; engine 'race': real goroutines " +
-			"under the race detector). Callers behave like callers: a task hands its previous result back as the next buffer (chained), a quarter of the epochs share one result array out as adjacent k-slot windows, the optional distance limit is one slice per value passed with "...", one predicate in ten searches the same tree itself (small trees); every returned slice is compared again when the epoch is over. Distinct = distinct event-log digest; non-trivial = at least one context switch happened inside a query.",
+			"under the race detector). Callers behave like callers: a task hands its previous result back as the next buffer (chained), a quarter of the epochs share one result array out as adjacent k-slot windows, the optional distance limit is one slice per value passed as limits..., one predicate in ten searches the same tree itself (small trees); every returned slice is compared again when the epoch is over. Distinct = distinct event-log digest; non-trivial = at least one context switch happened inside a query.",
 		StateDef: "distinct (tree node count bucket, task count, strategy, queries) signatures; distinct_schedules = distinct hashes of the (from,to,site) switch sequence",
 		Engines: []props.Engine{
 			{Name: "natural", Variant: "plain", Run: Run, QuickRuns: 40000, Share: 0.35, MinThorough: 200000, RunTimeout: 120 * time.Second},
